@@ -76,7 +76,10 @@ def gen_cond_case(rng, p_locals=0.2, p_tol=0.15):
     tol, rel = 1e-15, 1e-15
     if rng.random() < p_tol:
         tol, rel = rng.choice(TOLS)
-        extra = dict(extra or {}, tol=tol, rel=rel)
+        given = rng.choice(['both', 'both', 'tol', 'rel'])       # one of the two given alone: the other keeps its documented default of 1e-15
+        if given == 'tol': rel = 1e-15; extra = dict(extra or {}, tol=tol)
+        elif given == 'rel': tol = 1e-15; extra = dict(extra or {}, rel=rel)
+        else: extra = dict(extra or {}, tol=tol, rel=rel)
     text, specs = gen_text(rng, n, names, allow_ne=True)
     if extra and 'c0' in extra:       # an extra local used on some right-hand side
         lhs, cmp, rhs = specs[0]
